@@ -11,12 +11,12 @@ E5 no duplication: a collation that can run twice over one step consumes what it
 import ast
 
 from ..index import AnalysisError, is_spawn, walk_no_nested
-from ..norm import Canon, Logic, ProvCanon, effects_of_event, lit_le
+from ..norm import Canon, Lit, Logic, ProvCanon, effects_of_event, lit_le
 from ..paths import Frame, cached_paths, contains_yield, first_segment
 from ..simpy_model import Roots, registration_order, witness
 from ..skel import outcomes
 from . import events as E
-from .common import call_name, enclosing_loops, short, stmt_contains
+from .common import call_name, enclosing_loops, path_must, short, stmt_contains
 
 FLOORS = {'C13.E1': 8, 'C13.E2': 3, 'C13.E3': 3, 'C13.E4': 8, 'C13.E5': 3}
 
@@ -271,6 +271,7 @@ def consume_once(repo, res, canon, rule):
     callers = repo.call_sites({'Monitor.collate_events'})
     outside = [g for g, call, sp, ex in callers if g.qual != 'Monitor.run']
     fr = Frame(col)
+    _logic = Logic(canon)
     read = E.reads_in(repo, col, set(LISTS))
     for L in sorted(LISTS):
         clears = [n for f, n in E.clear_sites(repo, L) if f is col]
@@ -315,6 +316,13 @@ def consume_once(repo, res, canon, rule):
                 if read_at is not None:
                     copies.append(read_at)
             if not copies:
+                # a path that does not collect L must have seen that L is empty
+                must = path_must(_logic, p)
+                if not ({Lit('truthy(%s)' % L, False), Lit('empty(%s)' % L, True)} & must) and p.exit != 'raise':
+                    res.bad('C13.E3', col, col.node, '%s is skipped when it has entries' % L,
+                            'on a path of collate_events the entries of %s are not copied into the log although the path has not '
+                            'established that the list is empty: events are missing from the event log' % L,
+                            path=p.describe())
                 continue
             n_copy += 1
             cl = [i for i, e in enumerate(p.events) if any(e.node is n or (
